@@ -14,7 +14,7 @@
 (*              document order, then to_string              (C02)           *)
 (*   "perms"    every ordering of every bag that has exactly one valid      *)
 (*              arrangement, then to_string                 (C12)           *)
-(*   "removal"  up to Depth-1 accepted adds, one removal, one probe (C11)    *)
+(*   "removal"  accepted adds, one removal, one probe, to_string (C11)      *)
 (*   "afterfail" accepted adds, one refused call, any one operation, to_string (C10) *)
 (*   "cover"    one shortest valid word through every follow edge of the    *)
 (*              content model's automaton and every cycle taken twice, in  *)
@@ -159,9 +159,10 @@ Removal ==
   IF ~Removed
   THEN \/ (Len(hist) < RemAdds /\ \E a \in RemSigma : ExpectAdd(a) /\ AddOp(a, NoFwd))
        \/ (\E i \in DOMAIN ins : RemoveOp(i))
-  ELSE /\ hist[Len(hist)].op = "remove"
-       /\ \/ (\E a \in RemSigma : AddOp(a, NoFwd))
-          \/ ToStr(FALSE)
+  ELSE IF hist[Len(hist)].op = "remove"
+       THEN \/ (\E a \in RemSigma : AddOp(a, NoFwd))
+            \/ ToStr(FALSE)
+       ELSE hist[Len(hist)].op = "add" /\ hist[Len(hist) - 1].op = "remove" /\ ToStr(FALSE)   \* and what it serialises to
 
 \* afterfail: up to two accepted adds, then one call the specification expects to be REFUSED (an add, a
 \* replace_child by another name, a dot assignment), then any one operation, then to_string  (C10: what follows a
@@ -197,7 +198,7 @@ Spec == Init /\ [][Next]_vars
 Leaf == CASE Family = "uniform" -> Len(hist) = Depth
           [] Family = "words" -> Ended
           [] Family = "perms" -> Ended
-          [] Family = "removal" -> Removed /\ hist[Len(hist)].op # "remove"
+          [] Family = "removal" -> Removed /\ Ended
           [] Family = "cover" -> Ended
           [] Family = "wordrem" -> Ended
           [] Family = "afterfail" -> Failed /\ Len(hist) > FailIdx /\ (Ended \/ Len(hist) = FailIdx + 2)
